@@ -301,8 +301,6 @@ def run_task(param, acc):
         for k in (1, 2, 3):
             for ids in itertools.combinations(sorted(POOL), k):
                 for f, a, w_, p_, ren in itertools.product(range(4), range(3), (True, False), (True, False), (False, True)):
-                    if not w_ and p_ and acc.tier == 'quick':
-                        continue          # "p" without "w": thorough tier
                     d = dict((n, {}) for n in ids)
                     d[ids[0]] = dict(flags=f, a=a, w=w_, p=p_, renamed=ren)
                     for path in ('ns', 'event'):
@@ -361,6 +359,6 @@ def meta(tier):
              'lines x w/p presence x rename, through both delivery paths; identity codec on 5122 values. non-trivial: all'
              % (', plus a third step in thorough' if tier == 'thorough' else ''),
         bounds=dict(pool=5, chain_len=(3 if tier == 'quick' else 4), flagsets=len(FLAGSETS)),
-        assumptions=['status entries carry r / a / s / w / p lines in dir-spec order; "p" without "w" only in the thorough tier',
+        assumptions=['status entries carry r / a / s / w / p lines in dir-spec order (w and p optional, independently)',
                      'identities that entered the router table through a circuit path (not from a consensus) may stay in it',
                      'an ambiguous nickname may be absent or map to None; without a "w" line bandwidth is the default 0'])
